@@ -705,6 +705,8 @@ def run_ref(prog, real=None):
             r = None
         except (ZeroDivisionError, OverflowError):
             r = None
+        except (ValueError, IndexError, TypeError, KeyError):
+            r = None        # NumPy itself refuses the operation (e.g. internal shapes do not fit): no reference value
         if r is not None and not r.ordered and real is not None and not isinstance(real[k], tuple):
             dims = [str(d) for d in real[k].nodes.dims]
             if sorted(dims) == sorted(r.dims) and len(set(dims)) == len(dims):
@@ -795,7 +797,7 @@ class Gen:
             return [10 * j for j in range(n)]
         if style == "off":
             return [5 + 3 * j for j in range(n)]
-        return ["abcdefgh"[j] for j in range(n)]
+        return ["abcdefgh"[j] if j < 8 else "l%d" % j for j in range(n)]
 
     def push(self, st):
         self.prog["stmts"].append(st)
@@ -1033,7 +1035,11 @@ class Gen:
             n = self.env[cur].nodes
             if n.size > 3 * self.max_pos:
                 cur = k
-            cur = self.op_on(cur)
+            try:
+                cur = self.op_on(cur)
+            except Exception as e:   # the generator inspects real results; never let that crash a check
+                self.prog.setdefault("gen_notes", []).append(f"{type(e).__name__}: {str(e)[:80]}")
+                break
         return self.prog
 
 
